@@ -1,4 +1,5 @@
 import ServiceModel.Proofs.Reachable
+import ServiceModel.Proofs.Deposit
 /-!
 # C03 — Binding deposits stay in custody and leave only by the rules
 -/
@@ -93,5 +94,20 @@ theorem slash_burns {s s1 : State} {r : ReqId} {svc : SvcName} {p : Addr} {e : L
         split <;> exact ⟨_, Map.get_set_same _ _ _, rfl⟩
     · injection h with h1 h2; subst h1; subst h2
       exact ⟨rfl, hsup, _, Map.get_set_same _ _ _, rfl⟩
+
+/-- A binding's deposit shrinks only by a refund, by a slash at a response, or at the end of a block (slashes of
+    expired requests): every other operation keeps every existing binding with a deposit at least as large. -/
+theorem deposit_lowered_only_by_refund_or_slash (s : State) (op : Op) (h : op.mayLowerDeposit = false)
+    (k : SvcName × Addr) (b : Binding) (hb : Map.get s.bindings k = some b) :
+    ∃ b', Map.get (step s op).1.bindings k = some b' ∧ b.deposit ≤ b'.deposit :=
+  step_dep le_refl' s op (exec_dep_not_lowered s op h) k b hb
+
+/-- A binding's deposit grows only in an update or enable message (a bind creates the binding): every other
+    operation, the end of a block included, keeps every existing binding with a deposit at most as large. The
+    amount added is the one the owner is debited (`C05.update_debits_only_signer`, `enable_debits_only_signer`). -/
+theorem deposit_raised_only_by_update_or_enable (s : State) (op : Op) (h : op.mayRaiseDeposit = false)
+    (k : SvcName × Addr) (b : Binding) (hb : Map.get s.bindings k = some b) :
+    ∃ b', Map.get (step s op).1.bindings k = some b' ∧ b'.deposit ≤ b.deposit :=
+  step_dep ge_refl' s op (exec_dep_not_raised s op h) k b hb
 
 end SM.C03
